@@ -153,6 +153,9 @@ type fnCtx struct {
 	inlineFailed bool
 	specErrors   []string
 	lemmaName    string
+	recMeasures  []string
+	heapElemTy   map[string]types.Type
+	alloc0       string
 	curSkolems   []modelInput
 	boundCalls   map[int]bool
 	boundAfters  map[int]bool
@@ -213,6 +216,16 @@ func (fc *fnCtx) heapGet(st *State, name, sort string) string {
 	}
 	n := fc.defs.Declare("H."+name+"."+st.heapBase, sort)
 	t.heapInit[key] = n
+	if st.heapBase == "0" && t.alloc0 != "" {
+		// well-formed entry heap: stored pointers and slice backing arrays were allocated before entry
+		switch et := t.heapElemTy[name]; {
+		case et == nil:
+		case isPointer(et) && strings.HasPrefix(name, "f.") || isPointer(et) && strings.HasPrefix(name, "p."):
+			fc.defs.Axiom(n, fmt.Sprintf("(forall ((r Int)) (! (and (<= 0 (select %s r)) (< (select %s r) %s)) :pattern ((select %s r))))", n, n, t.alloc0, n))
+		case isSliceT(et) && (strings.HasPrefix(name, "f.") || strings.HasPrefix(name, "p.")):
+			fc.defs.Axiom(n, fmt.Sprintf("(forall ((r Int)) (! (and (<= 0 (sl.base (select %s r))) (< (sl.base (select %s r)) %s)) :pattern ((select %s r))))", n, n, t.alloc0, n))
+		}
+	}
 	if t.framedBases[st.heapBase] && t.entry != nil {
 		// heap at a loop header: the function's own frame holds there (proved at loop entry and back edges)
 		fc.defs.Axiom(n, fc.frameFact(name, sort, n))
@@ -286,16 +299,25 @@ func (fc *fnCtx) havocAllHeap(st *State, why string) {
 	// globals re-declared lazily with the new base
 }
 
+func isSliceT(t types.Type) bool {
+	_, ok := t.Underlying().(*types.Slice)
+	return ok
+}
+
 func (fc *fnCtx) heapFieldName(structT types.Type, field int) (string, string) {
 	ss := fc.S().structOf(structT)
-	return "f." + ss.fields[field], "(Array Int " + ss.fsorts[field] + ")"
+	name := "f." + ss.fields[field]
+	fc.top.heapElemTy[name] = ss.ftypes[field]
+	return name, "(Array Int " + ss.fsorts[field] + ")"
 }
 
 func (fc *fnCtx) heapPtrName(t types.Type) (string, string) {
 	if a, ok := t.Underlying().(*types.Array); ok {
 		return fc.heapElemName(a.Elem())
 	}
-	return "p." + mangle(t), "(Array Int " + fc.S().SortOf(t) + ")"
+	name := "p." + mangle(t)
+	fc.top.heapElemTy[name] = t
+	return name, "(Array Int " + fc.S().SortOf(t) + ")"
 }
 
 func (fc *fnCtx) heapElemName(elem types.Type) (string, string) {
@@ -376,6 +398,18 @@ func (fc *fnCtx) projPath(v string, p PathElem) string {
 func (fc *fnCtx) fieldOf(t types.Type, k int, v string) string {
 	ss := fc.S().structOf(t)
 	return fc.defs.Field(ss.fields[k], ss.ctor, k, v)
+}
+
+// strLen / strAt simplify through string literals (mkstr ARR 0 n).
+func (fc *fnCtx) strLen(s string) string { return fc.defs.Field("s.len", "mkstr", 2, s) }
+
+func (fc *fnCtx) strAt(s, i string) string {
+	b := fc.defs.resolve(s)
+	parts := splitTop(b)
+	if len(parts) == 4 && parts[0] == "mkstr" && parts[2] == "0" {
+		return fc.defs.Select(parts[1], i)
+	}
+	return "(s.at " + s + " " + i + ")"
 }
 
 func (fc *fnCtx) slBase(s string) string { return fc.defs.Field("sl.base", "mkslice", 0, s) }
@@ -1459,6 +1493,9 @@ func (fc *fnCtx) execUnOp(st *State, x *ssa.UnOp) {
 			fc.assume(st, fc.S().RangeFact(x.Type(), r.T, 1))
 			if isPointer(x.Type()) {
 				fc.assume(st, fmt.Sprintf("(< %s %s)", r.T, st.alloc))
+			}
+			if _, ok := x.Type().Underlying().(*types.Slice); ok {
+				fc.assume(st, fmt.Sprintf("(< (sl.base %s) %s)", r.T, st.alloc))
 			}
 		}
 	case token.NOT:
